@@ -160,6 +160,10 @@ class Verifier:
                 if not o.functions:
                     o.functions = [f'{c.target}#{fhash}']
             return out
+        # the in-body obligations exist for every contract (so that a body that starts to need one
+        # is compared with a discharged baseline entry, not with nothing)
+        ob('safety', 'in-body obligations: callee preconditions, index bounds, divisors, dtype '
+                     'discipline')
         names = list(c.cases)
         combos = list(itertools.product(*[c.cases[n] for n in names])) or [()]
         cover_ok = False
